@@ -209,25 +209,32 @@ structure ConfFile where
 abbrev ConfFS := List (Text × ConfFile)     -- include string ↦ file (absent = cannot be read)
 
 /-- `parseIncluding` on the document `f` with the chain `including`; `none` = fuel exhausted (the Go
-recursion would still be descending) -/
-def parseIncludingG (fs : ConfFS) : Nat → ConfFile → List Text → Option Bool
+recursion would still be descending).  `checked` = the cycle test is in the source. -/
+def parseIncludingG (checked : Bool) (fs : ConfFS) : Nat → ConfFile → List Text → Option Bool
   | 0, _, _ => none
   | fuel + 1, f, including =>
     if !f.decodes then some false else
     if f.incl = [] then some true else
-    if including.contains f.incl then some false else     -- include cycle
+    if checked && including.contains f.incl then some false else     -- include cycle
     match fs.lookup f.incl with
     | none => some false                                    -- failed to read include file
     | some g =>
-      match parseIncludingG fs fuel g (including ++ [f.incl]) with
+      match parseIncludingG checked fs fuel g (including ++ [f.incl]) with
       | none => none
       | some false => some false
       | some true => some true
 
+/-- does the source refuse an include string that is already on the chain, before anything else in the
+include block, and does the recursive call extend the chain by that string? (regenerated statement list) -/
+def includeChecked : Bool :=
+  Generated.includeBlock.head? = some "if slices.Contains(including, ic.Include) { return }" &&
+  Generated.includeBlock.contains
+    "if err := included.parseIncluding(ctx, data, includePaths, configHasher, append(including, ic.Include)); err != nil { return }"
+
 /-- `ImageConfiguration.Load` -/
-def loadConfigG (fs : ConfFS) (path : Text) : Option Bool :=
+def loadConfigG (checked : Bool) (fs : ConfFS) (path : Text) : Option Bool :=
   match fs.lookup path with
   | none => some false
-  | some f => parseIncludingG fs (fs.length + 2) f []
+  | some f => parseIncludingG checked fs (fs.length + 2) f []
 
 end Apko.Robust
